@@ -561,6 +561,7 @@ async fn run_history(root: &Path, h: &Value, out: &mut NdjsonOut, limit: Duratio
     }
     let mut state = new_server();
     let mut versions: BTreeMap<String, i32> = BTreeMap::new();
+    let mut opened: Vec<String> = vec![]; // documents the client has open, in order
     let mut k = 0;
     while k < steps.len() {
         let mut s = &steps[k];
@@ -571,6 +572,9 @@ async fn run_history(root: &Path, h: &Value, out: &mut NdjsonOut, limit: Duratio
         let path = dir.join(rel_path(m));
         match act {
             "Open" => {
+                if !opened.iter().any(|x| x == m) {
+                    opened.push(m.to_string());
+                }
                 status = did_open(&state, &path, limit).await;
             }
             "Edit" | "EditCancelled" => {
@@ -649,7 +653,13 @@ async fn run_history(root: &Path, h: &Value, out: &mut NdjsonOut, limit: Duratio
             let _ = take_panics();
             state = new_server();
             versions.clear();
-            let st = did_open(&state, &dir.join(rel_path("main")), limit).await;
+            // the client re-opens its documents (main first)
+            let mut st = did_open(&state, &dir.join(rel_path("main")), limit).await;
+            for om in opened.iter().filter(|x| x.as_str() != "main") {
+                if st == "ok" {
+                    st = did_open(&state, &dir.join(rel_path(om)), limit).await;
+                }
+            }
             if st != "ok" {
                 rebase_after_death();
             }
